@@ -8,6 +8,7 @@
  "notes":"abstract view of the wheel: due(e) = first visit of its slot after call_out_time + 32*(prefix sum of deltas - 1); contract of new_call_out over that view"}
 @*/
 #include "c10_env.h"
+void clear_error_state(void) { }   /* call_out() clears the limit marks after a failed callback (C05) */
 object_t *command_giver; time_t current_time;
 
 void h_new_call_out(void) {
